@@ -1,6 +1,9 @@
 package sx
 
 import (
+	"fmt"
+	"os"
+
 	"golang.org/x/tools/go/ssa"
 )
 
@@ -9,6 +12,9 @@ import (
 // whitelisted zero-initialised ones — everything else aborts as inconclusive on read.
 func (in *Interp) initDepGlobal(g *ssa.Global, p *Value) {
 	name := g.Pkg.Pkg.Path() + "." + g.Name()
+	if os.Getenv("GOSX_TRACE_GLOBALS") != "" {
+		fmt.Fprintln(os.Stderr, "DEPGLOBAL", name)
+	}
 	switch name {
 	case "io.EOF":
 		*p = in.errorValue("EOF")
@@ -24,6 +30,8 @@ func (in *Interp) initDepGlobal(g *ssa.Global, p *Value) {
 		in.b64EncodingGlobal(p, "url")
 	case "encoding/base64.RawURLEncoding":
 		in.b64EncodingGlobal(p, "rawurl")
+	case "crypto/rand.Reader":
+		*p = objIface(&Obj{Kind: "rand.Reader"})
 	case "database/sql.ErrNoRows":
 		*p = in.errorValue("sql: no rows in result set")
 	case "context.Canceled":
